@@ -62,6 +62,7 @@ import (
 // Client: one HTTP request described by its shape.
 //
 //	kind   prom | lokiproto | lokijson | ddmetrics | pprof (a pprof profile on /ingest: rows of the profile insert service; shape unused)
+//	       | zipkin (Zipkin JSON on /tempo/spans: shape [[k, t]] = k spans with t tags each; rows of the two span insert services)
 //	shape  run-length list [[k, n], ..]: k series / streams with n samples / entries / points each, in this order
 //	bad    "" (well-formed) | "snappy" (corrupt block) | "cut" (wire message cut in the middle) | "ts" (Loki JSON: unparsable timestamp
 //	       in the last entry)
@@ -226,7 +227,7 @@ func setup() *mux.Router {
 	ts := mk(impl.NewTimeSeriesInsertService, &tsRequests)
 	spl := mk(impl.NewSamplesInsertService, &splRequests)
 	mtr := mk(impl.NewMetricsInsertService, nil)
-	tsp := mk(impl.NewTempoSamplesInsertService, nil)
+	tsp := mk(impl.NewTempoSamplesInsertService, &splRequests) // a span pair shares the span batches: counted like samples requests
 	ttg := mk(impl.NewTempoTagsInsertService, nil)
 	prf := mk(impl.NewProfileSamplesInsertService, &splRequests) // a profile pair shares the profile batch: counted like samples requests
 	controllerv1.Registry = registry.NewStaticServiceRegistry(ts, spl, mtr, tsp, ttg, prf)
@@ -238,6 +239,7 @@ func setup() *mux.Router {
 	apirouterv1.RouteInsertDataApis(r, cfg)
 	apirouterv1.RoutePromDataApis(r, cfg)
 	apirouterv1.RouteProfileDataApis(r, cfg)
+	apirouterv1.RouteInsertTempoApis(r, controllerv1.NewMiddlewareConfig(controllerv1.WithExtraMiddlewareTempo...))
 	apirouterv1.RouteMiscApis(r, cfg)
 	return r
 }
@@ -287,10 +289,51 @@ func cut(b []byte) []byte {
 	return b[:len(b)/2]
 }
 
+// cutProto cuts a wire message so that it no longer parses (half of it may end exactly between two fields)
+func cutProto(raw []byte, mk func() proto.Message) []byte {
+	for n := len(raw) / 2; n > 0; n-- {
+		if proto.Unmarshal(raw[:n], mk()) != nil {
+			return raw[:n]
+		}
+	}
+	return []byte{0x0a} // a length-delimited field without its length
+}
+
 // build renders a client's request; who distinguishes the label sets of the two clients, id those of different cases
 // (the announcement cache of the writer is keyed by the label set: every case announces its own series)
 func build(c Client, who string, id int) wire {
 	switch c.Kind {
+	case "zipkin":
+		var b bytes.Buffer
+		b.WriteByte('[')
+		si := 0
+		for _, sh := range c.Shape {
+			for k := 0; k < sh[0]; k++ {
+				if si > 0 {
+					b.WriteByte(',')
+				}
+				sid := fmt.Sprintf("%016x", uint64(id)<<24|uint64(si)+1)
+				if c.Bad == "id" && si == 0 {
+					sid = "not-hex-digits!!" // the whole request is refused (a shorter hex id would be padded)
+				}
+				fmt.Fprintf(&b, `{"traceId":"d6e9329d67b6146c%016x","id":"%s","name":"shared-%s","timestamp":%d,"duration":1000,"localEndpoint":{"serviceName":"shared_%s"},"tags":{`,
+					uint64(id)+1, sid, who, int64(baseSec)*1000000+int64(si), who)
+				for t := 0; t < sh[1]; t++ {
+					if t > 0 {
+						b.WriteByte(',')
+					}
+					fmt.Fprintf(&b, `"k%d":"v%d"`, t, t)
+				}
+				b.WriteString(`}}`)
+				si++
+			}
+		}
+		b.WriteByte(']')
+		body := b.Bytes()
+		if c.Bad == "cut" {
+			body = cut(body)
+		}
+		return wire{"/tempo/spans", "application/json", body}
 	case "pprof":
 		body := validPprof(int64(id))
 		if c.Bad == "cut" {
@@ -316,7 +359,7 @@ func build(c Client, who string, id int) wire {
 			panic(err)
 		}
 		if c.Bad == "cut" {
-			raw = cut(raw)
+			raw = cutProto(raw, func() proto.Message { return &prompb.WriteRequest{} })
 		}
 		body := snappy.Encode(nil, raw)
 		if c.Bad == "snappy" {
@@ -341,7 +384,7 @@ func build(c Client, who string, id int) wire {
 			panic(err)
 		}
 		if c.Bad == "cut" {
-			raw = cut(raw)
+			raw = cutProto(raw, func() proto.Message { return &logproto.PushRequest{} })
 		}
 		body := snappy.Encode(nil, raw)
 		if c.Bad == "snappy" {
@@ -564,6 +607,26 @@ func genShape(r *rand.Rand, kind string) ([][2]int, string) {
 
 func gen(r *rand.Rand, id int) Case {
 	c := Case{ID: id}
+	if r.Intn(9) == 1 {
+		// two span pushes in one batch of the span / attribute insert services
+		c.A = Client{Kind: "zipkin", Shape: [][2]int{{1 + r.Intn(3), r.Intn(4)}}}
+		c.B = Client{Kind: "zipkin", Shape: [][2]int{{1 + r.Intn(400), r.Intn(12)}}}
+		cls := "spans"
+		switch r.Intn(5) {
+		case 0:
+			c.B.Bad = "cut"
+			cls += "/bad-cut"
+		case 1:
+			c.B.Bad = "id"
+			cls += "/bad-id"
+		case 2:
+			c.B.Shape = [][2]int{{3000 + r.Intn(3000), 8}} // more than 1 MiB accounted: several requests
+			cls += "/over-1MiB"
+		}
+		c.Order = []string{"a-first", "b-first", "concurrent"}[r.Intn(3)]
+		c.Class = "zipkin/" + cls + "/" + c.Order
+		return c
+	}
 	if r.Intn(9) == 0 {
 		// two profile pushes in one batch of the profile insert service
 		c.A = Client{Kind: "pprof", Shape: [][2]int{{1, 1}}}
